@@ -67,7 +67,7 @@ ASSUMPTIONS = [
     "valueless variable, plain event variables as built by the public wrapper, every domain graph keeps the target's "
     "bidirected edges between non-policy variables and has no bidirected edge at a selection node => answer or FAIL, no "
     "error); for Algorithm 3 PROVED outside its crash classes (ctfTR_no_internal_error_partial: validated input, plain query "
-    "variables, DomainsAgree, every vertex is a variable of some domain distribution (PopsCoverNodes, true of PP[pi](V)), and "
+    "variables, DomainsAgree, and "
     "three decidable predicates on the input: OutcomesFound = every outcome is found in the ancestral components under its own "
     "name, DstarOneWorld = D* names each vertex in one world, OutcomeNotCondition = no outcome shares its vertex with a "
     "condition; the facts about Algorithm 2's expression Q - never Zero(), only graph vertices and variables of the domain "
